@@ -354,7 +354,7 @@ func (p *c38) Run(c fw.Case, r *fw.Rec) {
 	hdrEnd := bytes.Index(frame, []byte("\r\n\r\n")) + 4
 	body := frame[hdrEnd:]
 	var bad []byte
-	headerOK := true   // header well-formed with a Content-Length equal to the bytes that follow as "body"
+	headerOK := true // header well-formed with a Content-Length equal to the bytes that follow as "body"
 	mayReturnMsg := false
 	mk := func(hdr string, b []byte) []byte { return append([]byte(hdr), b...) }
 	kind := rnd.Intn(19)
